@@ -8,17 +8,23 @@
   reference: key ↦ (present, flags, version list), a stack of marks, len/size defined by counting.
   `abs` reads a `Spec` off a `VLog`; `Inv` is the representation invariant (links well formed, counters exact, …).
 
-  Two further layers are modelled and proved:
+  Three further layers are modelled and proved:
   * the ORDERED-MAP layer: the key order is a strict total order and every iterator answer (plain / reverse / with flag-only
     keys / snapshot) is exactly the in-range part of the map in strictly ascending (descending) key order, for every call
     sequence (`iter_is_sorted_filter`, `snapIter_is_sorted_filter`, `key_order_strict_total`);
   * the NODE-CONTAINER layer of the radix tree (Model/ArtNode.lean ↔ art_node.go node4/16/48/256: findChild, addChild with
     growth, replaceChild, iteration order), driven directly in the differential through the `n*` ops
-    (`artnode_insert_lookup`, `artnode_addChild`, `artnode_replaceChild`).
-  STILL tied to the reference only by the differential (harness/c08): the PATH logic of the radix tree (recursiveInsert /
-  search / expandLeafIfNeeded / expandNode: prefix compression, the 20-byte in-node prefix with optimistic matching, in-place
-  leaves, lazy expansion), iterator seek with bounds inside the tree, the whole red-black tree (rotations, recolouring), the
-  arena's block arithmetic, the node allocator and its free lists.
+    (`artnode_insert_lookup`, `artnode_addChild`, `artnode_replaceChild`);
+  * the PATH logic of the radix tree (Model/ArtTree.lean ↔ art.go search / recursiveInsert / expandLeafIfNeeded / expandNode,
+    art_node.go match / matchDeep / setPrefix / minimumLeafNode, full in-order traversal): compressed prefixes with the
+    bounded in-node part and optimistic matching, in-place leaves, prefix split, leaf expansion — tied by a STRUCTURE
+    differential (`tdump`: the real tree is dumped node by node and compared with the model's dump after writes), proved in
+    `art_tree_inserts`, `art_insert_search`, `art_kids_as_container`.
+  STILL tied to the reference only by the differential (harness/c08): iterator seek with bounds inside the radix tree
+  (`baseIter.seek`, the end-address logic of `Iterator.init`) and its lastTraversedNode cache; the whole red-black tree (no model of
+  its insertion / rotations — its invariants root-black, no red-red, equal black height, BST order, parent links are CHECKED on
+  the real tree by the property op `rbtchk`, and its in-order key sequence is compared with the model's key set); the arena's
+  block arithmetic, the node allocator and its free lists.
 -/
 import ClientGoVerif.Proofs.MemBufOrder
 import ClientGoVerif.Proofs.ArtNode
@@ -414,6 +420,18 @@ theorem art_insert_search (t : ArtTree.Tree) (h : ArtTree.WFT [] t) (k k' : Byte
     by_cases hm : k' ∈ ArtTree.keys t
     · rw [if_pos ((h2 k').mpr (Or.inr hm)), if_pos hm]
     · rw [if_neg (fun hh => by rcases (h2 k').mp hh with e' | e'; exact e e'; exact hm e'), if_neg hm]
+
+/-- how the two radix-tree layers fit: the children of any node of a well-formed tree, put into a node4 one `addChild` at a
+    time (in any order — here the stored one), give a container in which `findChild` is the lookup among those children,
+    whose kind is the one the structure dump prints (`kindFor` of their number), and whose iteration order is ascending -/
+theorem art_kids_as_container (q : Bytes) (kids : ArtTree.Kids) (h : ArtTree.WFK q kids) :
+    (∀ c, (ArtNode.build kids.toList).findChild c = ArtNode.assoc c kids.toList) ∧
+    (ArtNode.build kids.toList).num = kids.length ∧
+    (ArtNode.build kids.toList).kind = ArtNode.kindFor kids.length ∧
+    (ArtNode.build kids.toList).children.Pairwise (fun a b => a.1 < b.1) := by
+  obtain ⟨h1, h2, h3, _, h5⟩ := artnode_insert_lookup kids.toList (ArtTree.bytes_nodup q kids h)
+  rw [ArtTree.toList_length] at h2 h3
+  exact ⟨h1, h2, h3, h5⟩
 
 /-- keys that are prefixes of each other, the empty key and a 30-byte common prefix, computed on the model -/
 example :
